@@ -134,7 +134,7 @@ Print Assumptions C03_written_file_history.
 From Grenad.proofs Require Import ClonesRefine.
 
 Theorem C03_clones : forall ld root levels bstore, wf_store ld root levels bstore ->
-  forall ops ps sts, Forall2 (Rel root bstore levels) ps sts -> madm root levels bstore ps ops ->
+  forall ops ps sts, Forall2 (Rel root bstore levels) ps sts -> madm (content root levels bstore) ps ops ->
   exists sts' rs, mrun ld root levels sts ops = Done (sts', rs) /\
     Forall2 (Rel root bstore levels) (fst (amrun (content root levels bstore) ps ops)) sts' /\
     Forall2 res_ok (snd (amrun (content root levels bstore) ps ops)) rs.
@@ -142,11 +142,23 @@ Proof. exact clones_refine. Qed.
 Print Assumptions C03_clones.
 
 Theorem C03_clones_from_fresh : forall ld root levels bstore, wf_store ld root levels bstore ->
-  forall ops, madm root levels bstore [Fresh] ops ->
+  forall ops, madm (content root levels bstore) [Fresh] ops ->
   exists sts' rs, mrun ld root levels [cs_fresh] ops = Done (sts', rs) /\
     Forall2 res_ok (snd (amrun (content root levels bstore) [Fresh] ops)) rs.
 Proof. exact clones_from_fresh. Qed.
 Print Assumptions C03_clones_from_fresh.
+
+Theorem C03_written_file_clones : forall compress decompress c,
+  (forall b z, compress (wc_codec c) (wc_level c) b = Done z -> decompress (wc_codec c) z = Done b) ->
+  forall es i s lg m, wc_levels c < 256 -> 1 <= wc_interval c ->
+  w_run_gen vsink vs_wr vs_fl vs_count compress c vs_empty es = (i, Done (s, lg, m)) ->
+  es <> [] -> sorted_strictb (map fst es) = true ->
+  len (vs_bytes s) < 2^64 -> mem_ok lg ->
+  forall ops, madm es [Fresh] ops ->
+  exists sts rs, mrun (load_block decompress (vs_bytes s) (m_codec m)) (m_root m) (m_levels m) [cs_fresh] ops = Done (sts, rs) /\
+    Forall2 res_ok (snd (amrun es [Fresh] ops)) rs.
+Proof. exact written_file_clones. Qed.
+Print Assumptions C03_written_file_clones.
 
 (* a clone is unaffected by what its original does afterwards: position 1, clone, move the original to the
    last entry, the clone's next is entry 2 *)
